@@ -250,7 +250,15 @@ func ruleOGlob(c *Ctx) {
 	// engine has no fields
 	if obj := c.P.Pkgs[modPath+"/bscript/interpreter"].Types.Scope().Lookup("engine"); obj != nil {
 		st, _ := obj.Type().Underlying().(*types.Struct)
-		c.Check(st != nil && st.NumFields() == 0, "O-glob", "engine-stateless", obj.Pos(), "type engine has no fields", "type engine has fields: shared state between concurrent Execute calls")
+		why := ""
+		if st == nil {
+			why = "type engine is not a struct"
+		} else if st.NumFields() > 0 {
+			// fields are no shared mutable state if they hold no reference, are stored only while an engine is
+			// being built (through a fresh local) and are otherwise read by value
+			why = engineFieldsReadOnly(c, obj.Type(), st)
+		}
+		c.Check(why == "", "O-glob", "engine-stateless", obj.Pos(), "type engine has no state shared between Execute calls (no fields, or value-only fields written only while it is built and read by value)", "type engine has fields: shared state between concurrent Execute calls: "+why)
 	} else {
 		c.Undecided("O-glob", "engine-stateless", token.NoPos, "type engine not found")
 	}
@@ -343,4 +351,74 @@ func ruleOPureSighash(c *Ctx) {
 	for _, n := range []string{"CalcInputPreimage", "CalcInputPreimageLegacy", "CalcInputSignatureHash", "PreviousOutHash", "SequenceHash", "OutputsHash"} {
 		rulePureParam(c, "O-pure", "", "*Tx", n, 0, nil)
 	}
+}
+
+// engineFieldsReadOnly: "" when every field of the struct type holds no reference and, throughout the module, is
+// stored only through a freshly allocated struct and otherwise only loaded.
+func engineFieldsReadOnly(c *Ctx, t types.Type, st *types.Struct) string {
+	var valueOnly func(t types.Type, depth int) bool
+	valueOnly = func(t types.Type, depth int) bool {
+		if depth > 4 {
+			return false
+		}
+		switch u := t.Underlying().(type) {
+		case *types.Basic:
+			return u.Kind() != types.UnsafePointer
+		case *types.Array:
+			return valueOnly(u.Elem(), depth+1)
+		case *types.Struct:
+			for i := 0; i < u.NumFields(); i++ {
+				if !valueOnly(u.Field(i).Type(), depth+1) {
+					return false
+				}
+			}
+			return true
+		}
+		return false
+	}
+	for i := 0; i < st.NumFields(); i++ {
+		if !valueOnly(st.Field(i).Type(), 0) {
+			return "field " + st.Field(i).Name() + " holds a reference"
+		}
+	}
+	for _, pk := range c.P.ScopePkgs() {
+		for _, fn := range pkgFunctions(c.P, pk.PkgPath) {
+			for _, b := range fn.Blocks {
+				for _, ins := range b.Instrs {
+					fa, ok := ins.(*ssa.FieldAddr)
+					if !ok || !types.Identical(derefType(fa.X.Type()), t) || fa.Referrers() == nil {
+						continue
+					}
+					_, fresh := fa.X.(*ssa.Alloc)
+					for _, r := range *fa.Referrers() {
+						switch x := r.(type) {
+						case *ssa.UnOp, *ssa.DebugRef:
+						case *ssa.Store:
+							if x.Addr != ssa.Value(fa) || !fresh {
+								return "field " + fieldName(fa.X.Type(), fa.Field) + " is written in " + funcName(fn) + " on an engine that may be shared"
+							}
+						case *ssa.FieldAddr:
+							// a field of a struct-valued field: the same rules one level down
+							if x.Referrers() != nil {
+								for _, r2 := range *x.Referrers() {
+									switch y := r2.(type) {
+									case *ssa.UnOp, *ssa.DebugRef:
+									case *ssa.Store:
+										if y.Addr != ssa.Value(x) || !fresh {
+											return "field " + fieldName(fa.X.Type(), fa.Field) + " is written in " + funcName(fn) + " on an engine that may be shared"
+										}
+									default:
+										return "the address of part of field " + fieldName(fa.X.Type(), fa.Field) + " is handed on in " + funcName(fn)
+									}
+								}
+							}
+						default:
+							return "the address of field " + fieldName(fa.X.Type(), fa.Field) + " is handed on in " + funcName(fn) + " (a write through it would be shared)"
+						}
+					}
+				}
+			}
+		}
+	}
+	return ""
 }
